@@ -129,7 +129,8 @@ class Run:
         self.transparent = ()                   # record templates whose objects stand for the single value they are built from
         self.transparent_vars = set()
         self.sinks = {}                         # member name -> buffer name: String members that only receive appended text
-        self.listsinks = {}                     # var id -> list of strings: an Array<String> that only receives appended strings
+        self.listsinks = {}                     # var id -> list of strings: a modelled Array<String> (shared with sub-runs)
+        self.dicts = {}                         # var id -> {key chars: value chars}: a modelled Dic<String> (shared with sub-runs)
         self.ignore_string_members = False      # True: assignments / appends to String members of the current object are not tracked
         self.strmem_vals = {}                   # member name -> chars: last value assigned to an (otherwise ignored) String member
         self.elem_size = {}                     # buffer name -> size in bytes of one element (byte-based sizes / offsets are scaled)
@@ -184,6 +185,7 @@ class Run:
         sub.objects = self.objects
         sub.ignore_string_members = self.ignore_string_members
         sub.recs = self.recs
+        sub.listsinks, sub.dicts = self.listsinks, self.dicts
         self.bind_args(sub, g, fn, args)
         return sub.run()
 
@@ -196,6 +198,12 @@ class Run:
                 sub.objlen[p_['id']] = self.objlen.get(a[1][1], 0)
                 if a[1][1] in self.strobjs:
                     sub.strobjs.add(p_['id'])
+                continue
+            if isinstance(a, tuple) and a[0] == 'SLIST' and a[1] in self.listsinks:
+                self.listsinks[p_['id']] = self.listsinks[a[1]]
+                continue
+            if isinstance(a, tuple) and a[0] == 'DICT' and a[1] in self.dicts:
+                self.dicts[p_['id']] = self.dicts[a[1]]
                 continue
             sub.vars[p_['id']] = wrap(a, T(g, p_['t']))
         if len(g['params']) > len(args):
@@ -218,6 +226,7 @@ class Run:
         sub.transparent = self.transparent
         sub.recs = self.recs
         sub.self_rec = recname
+        sub.listsinks, sub.dicts = self.listsinks, self.dicts
         self.bind_args(sub, g, fn, args)
         r = sub.run()
         return ('R', recname) if isinstance(r, tuple) and r == ('THIS',) else r
@@ -238,6 +247,26 @@ class Run:
             args = [self.pass_arg(self.val(a)) for a in ctor_expr.get('a', [])]
             self.call_record_member(name, ctor_expr, ctor_expr.get('fn'), args, ctor=ctors[0])
         return name
+
+    def text_of(self, v, line):
+        """the characters of a string value: a C string, a substring value or a modelled String object"""
+        if isinstance(v, tuple) and v[0] == 'P' and isinstance(v[1], tuple) and v[1][0] == 'O' and v[1][1] in self.strobjs and v[2] == 0:
+            return list(self.bufs[v[1]][:-1])
+        if isinstance(v, tuple) and v[0] == 'P':
+            return self.cstring(v, line)
+        if isinstance(v, tuple) and v[0] == 'STRV':
+            return list(v[1])
+        if isinstance(v, tuple) and v[0] == 'OBJ' and v[1] in self.strobjs:
+            return list(self.bufs[('O', v[1])][:-1])
+        raise Unsupported('a value that is not a text')
+
+    def temp_string(self, chars):
+        self._anon = getattr(self, '_anon', 0) + 1
+        tid = 'str%d_%d' % (self._anon, id(self) & 0xfffff)
+        self.bufs[('O', tid)] = list(chars) + [0]
+        self.objlen[tid] = len(chars)
+        self.strobjs.add(tid)
+        return tid
 
     def recv_is_this(self, o):
         """the receiver of a call is the current object: this / *this, or a reference parameter bound to it"""
@@ -571,6 +600,13 @@ class Run:
             o = strip_lv(o['e'])
         if o.get('k') == 'var' and ('O', o.get('id')) in self.bufs:
             return o['id']
+        if self.objects and o.get('k') == 'call' and o.get('op') == '[]' and o.get('obj') is not None and len(o.get('a', [])) == 1:
+            lv_ = strip_lv(o['obj'])
+            if lv_.get('k') == 'var' and lv_.get('id') in self.listsinks:
+                # an element of a modelled array of strings: a temporary string object holding its text
+                sv = self.val(o)
+                if isinstance(sv, tuple) and sv[0] == 'STRV':
+                    return self.temp_string(sv[1])
         if self.objects and o.get('k') == 'call' and o.get('op') == '->' and o.get('obj') is not None:
             o = strip_lv(o['obj'])          # a smart-pointer member: p.operator->()
             while o.get('k') in ('temp', 'paren'):
@@ -715,6 +751,10 @@ class Run:
                 return const_val(gq['init'])            # scalar constant at namespace scope
             if ('O', e['id']) in self.bufs:
                 return ('P', ('O', e['id']), 0)
+            if e['id'] in self.listsinks:
+                return ('SLIST', e['id'])
+            if e['id'] in self.dicts:
+                return ('DICT', e['id'])
             raise Unsupported('variable %s' % e.get('n'))
         if k == 'mem' and _on_this(e) and e.get('f') in self.sinks:
             return ('SINK', e['f'])
@@ -1050,6 +1090,26 @@ class Run:
                     if name == 'length':
                         return len(sv[1])
                     raise Unsupported('member call `%s` on a substring' % pe(e))
+        if e.get('obj') is not None and self.dicts:
+            do = strip_lv(e['obj'])
+            while do.get('k') in ('temp', 'paren', 'cast'):
+                do = strip_lv(do['e'])
+            if (name == 'operator=' or e.get('op') == '=') and do.get('k') == 'call' and do.get('op') == '[]' and do.get('obj') is not None and len(e.get('a', [])) == 1:
+                dv = strip_lv(do['obj'])
+                if dv.get('k') == 'var' and dv.get('id') in self.dicts:
+                    # dic[key] = value with texts on both sides
+                    key, val_ = self.text_of(self.val(do['a'][0]), e.get('l')), self.text_of(self.val(e['a'][0]), e.get('l'))
+                    self.dicts[dv['id']][tuple(key)] = tuple(val_)
+                    return ('DICT', dv['id'])
+            if do.get('k') == 'var' and do.get('id') in self.dicts:
+                if name in ('length', 'size') and not e.get('a'):
+                    return len(self.dicts[do['id']])
+                if name == 'clear' and not e.get('a'):
+                    self.dicts[do['id']].clear()
+                    return ('DICT', do['id'])
+                if name in ('has', 'contains') and len(e.get('a', [])) == 1:
+                    return int(tuple(self.text_of(self.val(e['a'][0]), e.get('l'))) in self.dicts[do['id']])
+                raise Unsupported('member call `%s` on a modelled dictionary' % pe(e))
         if e.get('obj') is not None and self.listsinks:
             lo = strip_lv(e['obj'])
             while lo.get('k') in ('temp', 'paren', 'cast'):
@@ -1076,6 +1136,11 @@ class Run:
                     else:
                         raise Unsupported('`%s` appends something that is not a string' % pe(e))
                     return ('LSINK', lo['id'])
+                if e.get('op') == '[]' and len(e.get('a', [])) == 1:
+                    i_ = self.val(e['a'][0])
+                    if not isinstance(i_, int) or not 0 <= i_ < len(lst):
+                        raise OOB(('L', lo['id']), i_ if isinstance(i_, int) else -1, len(lst), e.get('l'))
+                    return ('STRV', tuple(lst[i_]))
                 raise Unsupported('member call `%s` on an output list' % pe(e))
         if e.get('obj') is not None and self.sinks:
             so = strip_lv(e['obj'])
@@ -1261,6 +1326,7 @@ class Run:
                           methods={'*': 'interp'}, call_ptrs={'str': sp, 'data': sp}, externs=self.externs, objects=True)
                 sub.recs = self.recs
                 sub.strobjs |= self.strobjs
+                sub.listsinks, sub.dicts = self.listsinks, self.dicts
                 self.bind_args(sub, g, fn, [self.pass_arg(self.val(a)) for a in e.get('a', [])])
                 return sub.run()
             raise Unsupported('member call `%s` on a modelled object' % pe(e))
@@ -1298,6 +1364,7 @@ class Run:
         g = cands[0]
         sub = Run(self.prog, g, self.bufs, depth=self.depth + 1, budget=self.budget, growable=self.growable, externs=self.externs, objects=self.objects)
         sub.transparent = self.transparent
+        sub.listsinks, sub.dicts = self.listsinks, self.dicts
         for p_, a in zip(g['params'], e.get('a', [])):
             ao = strip_lv(a)
             if self.objects and ao.get('k') == 'var' and ('O', ao.get('id')) in self.bufs and T(g, p_['t']).get('ref'):
@@ -1310,6 +1377,12 @@ class Run:
             if self.bind_ref(sub, g, p_, a):
                 continue
             av = self.val(a)
+            if isinstance(av, tuple) and av[0] == 'SLIST' and av[1] in self.listsinks:
+                self.listsinks[p_['id']] = self.listsinks[av[1]]
+                continue
+            if isinstance(av, tuple) and av[0] == 'DICT' and av[1] in self.dicts:
+                self.dicts[p_['id']] = self.dicts[av[1]]
+                continue
             if isinstance(av, tuple) and av == ('THIS',):
                 # the current object handed to a helper (`nextCut(*this, sep, i)`): members called on that parameter are
                 # members of the same object
@@ -1341,6 +1414,26 @@ class Run:
                 self.transparent_vars.add(v['id'])
                 return
             raise Unsupported('local %s of type %s' % (v['n'], tv.get('s')))
+        if self.objects and v.get('init') is not None and (tv.get('rec') == 'asl::String' or (tv.get('ref') and T(self.f, tv.get('to')).get('rec') == 'asl::String')):
+            # a String local (or reference) initialised from a text value - an element of a modelled array, a substring, another
+            # modelled string: a string object of its own holding that text
+            ini_ = strip(v['init'])
+            is_len_ctor = ini_.get('k') == 'construct' and ini_.get('a') and all(T(self.f, strip_lv(a).get('t')).get('int') for a in ini_['a'])
+            io_ = strip_lv(v['init'])
+            while io_.get('k') in ('cast', 'temp', 'paren'):
+                io_ = strip_lv(io_['e'])
+            aliases_obj = io_.get('k') == 'var' and ('O', io_.get('id')) in self.bufs
+            if not is_len_ctor and not (tv.get('ref') and aliases_obj) and not (ini_.get('k') == 'construct' and not ini_.get('a')):
+                try:
+                    tv_ = self.val(v['init'])
+                    chars = self.text_of(tv_, v.get('l'))
+                except Unsupported:
+                    chars = None
+                if chars is not None:
+                    self.bufs[('O', v['id'])] = list(chars) + [0]
+                    self.objlen[v['id']] = len(chars)
+                    self.strobjs.add(v['id'])
+                    return
         if self.objects and tv.get('ref') and v.get('init') is not None:
             io = strip_lv(v['init'])
             while io.get('k') in ('cast', 'temp', 'paren'):
@@ -1352,6 +1445,25 @@ class Run:
                 if io['id'] in self.strobjs:
                     self.strobjs.add(v['id'])
                 return
+        if self.objects and not tv.get('ref') and not tv.get('ptr') and (tv.get('rec') or '').replace(' ', '') == 'asl::Array<asl::String>':
+            # an array of strings: a list of texts (initialised empty, or a second handle on the list an expression yields)
+            if v.get('init') is None or (strip(v['init']).get('k') == 'construct' and not strip(v['init']).get('a')):
+                self.listsinks[v['id']] = []
+                return
+            rv = self.val(v['init'])
+            if isinstance(rv, tuple) and rv[0] == 'SLIST' and rv[1] in self.listsinks:
+                self.listsinks[v['id']] = self.listsinks[rv[1]]
+                return
+            raise Unsupported('local %s of type %s' % (v['n'], tv.get('s')))
+        if self.objects and not tv.get('ref') and not tv.get('ptr') and tv.get('recp') in ('asl::Dic', 'asl::Map', 'asl::HashDic') and (tv.get('rec') or '').replace(' ', '') in ('asl::Dic<asl::String>', 'asl::Map<asl::String,asl::String>', 'asl::HashDic<asl::String>'):
+            if v.get('init') is None or (strip(v['init']).get('k') == 'construct' and not strip(v['init']).get('a')):
+                self.dicts[v['id']] = {}
+                return
+            rv = self.val(v['init'])
+            if isinstance(rv, tuple) and rv[0] == 'DICT' and rv[1] in self.dicts:
+                self.dicts[v['id']] = self.dicts[rv[1]]
+                return
+            raise Unsupported('local %s of type %s' % (v['n'], tv.get('s')))
         if self.objects and (tv.get('rec') == 'asl::String' or tv.get('recp') == 'asl::Array'):
             # a local string / array constructed with a length: a zero-filled buffer of that many elements (+1: the NUL
             # of a String), bounds-checked like any other buffer
